@@ -188,7 +188,7 @@ __CPROVER_ensures((!g_op_sync && !OLD(aio->a_stop) && !aio->a_expire_q->eq_stop 
 __CPROVER_ensures(g_pending ==> (!g_op_sync && (aio->a_use_expire || g_op_timeout != NNG_DURATION_ZERO)))  \
 __CPROVER_ensures(g_op_sync ==> (!g_pending && g_fin_rv == g_r))                                           \
 __CPROVER_ensures((SENDKIND) ==> ((g_fin_rv == 0) ? (aio->a_msg == NULL && g_msg_taken == OLD(g_msg_taken) + 1) : (aio->a_msg == OLD(aio->a_msg) && g_msg_taken == OLD(g_msg_taken)))) \
-__CPROVER_ensures(!(SENDKIND) ==> ((g_fin_rv == 0) ? aio->a_msg == g_rmsg : aio->a_msg == OLD(aio->a_msg)))
+__CPROVER_ensures(!(SENDKIND) ==> (g_msg_taken == OLD(g_msg_taken) && ((g_fin_rv == 0) ? aio->a_msg == g_rmsg : aio->a_msg == OLD(aio->a_msg))))
 
 #define API_DISPATCH_CONTRACT(OBJPRE, BIND, REF, KIND, DATA, TMO, SENDKIND)                                           \
 __CPROVER_requires(API_ENV_PRE && (OBJPRE) && (BIND) && API_AIO_PRE(aio) && ((SENDKIND) || g_rmsg != NULL))                                            \
